@@ -194,6 +194,11 @@ func (rr *reqRun) script(a *fakecql.Attempt) fakecql.Outcome {
 		}{{1, 2, false}, {1, 2, true}, {2, 2, true}, {0, 1, false}, {3, 2, true}}[vn%5]
 		out.Received, out.BlockFor, out.DataPresent = rbd.r, rbd.b, rbd.d
 	}
+	// every fourth error frame carries a warning (header flag WARNING, protocol v4 and later): how an error is dressed
+	// says nothing about what it means
+	if k != fakecql.OK && vn%4 == 1 && out.RawErrorBody == nil && a.Frame.Header.Version >= primitive.ProtocolVersion4 {
+		out.Warnings = []string{"verif: a warning that accompanies the error"}
+	}
 	if rr.maxDelay > 0 {
 		out.Delay = time.Duration(rr.intn(rr.maxDelay*1000)) * time.Microsecond
 	}
@@ -397,6 +402,7 @@ type roundOpts struct {
 	preCompression  string // a client with this compression prepares the statements before the workload's own clients do
 	churn           int    // short-lived clients that hang up with requests in flight
 	localBursts     int    // clients that pipeline bursts of requests the proxy answers itself
+	halfPool        int    // so many times a node loses ONE of its pooled connections and is slow to accept its replacement
 	idleClose       bool   // short heartbeat interval / idle timeout: connections of a silent node are closed by the proxy
 }
 
@@ -549,6 +555,36 @@ func runRound(scs []*reqScenario, nodes, numConns, nclients, workers int, out st
 		time.Sleep(700 * time.Millisecond) // a heartbeat has been sent and has timed out in the proxy
 	}
 	stopRestarts := make(chan struct{})
+	if ro.halfPool > 0 {
+		// a pool with one of its slots empty for a while: the host still has a usable connection, requests must keep using it
+		go func() {
+			rnd := newRand(salt + 5151)
+			for i := 0; i < ro.halfPool; i++ {
+				select {
+				case <-stopRestarts:
+					return
+				case <-time.After(time.Duration(120+rnd.Intn(120)) * time.Millisecond):
+				}
+				n := e.C.Node(e.IPs[rnd.Intn(len(e.IPs))])
+				var data []*fakecql.Conn
+				for _, cn := range n.Conns() {
+					if !cn.Registered && !cn.Closed() && cn.Started {
+						data = append(data, cn)
+					}
+				}
+				if len(data) < 2 {
+					continue
+				}
+				atomic.StoreInt64((*int64)(&e.C.SlowStart), int64(700*time.Millisecond))
+				data[i%len(data)].Close("halfpool")
+				select {
+				case <-stopRestarts:
+				case <-time.After(550 * time.Millisecond):
+				}
+				atomic.StoreInt64((*int64)(&e.C.SlowStart), 0)
+			}
+		}()
+	}
 	if ro.restarts > 0 {
 		go func() {
 			rnd := newRand(salt + 991)
@@ -913,6 +949,7 @@ func init() {
 		churn := fs.Int("churn", 0, "short-lived clients that send a pipeline of requests and hang up without reading the answers")
 		localBursts := fs.Int("localbursts", 0, "clients that send bursts of pipelined requests which the proxy answers itself (one write per burst)")
 		idleClose := fs.Bool("idleclose", false, "random scenarios include nodes falling silent until the proxy closes their connections (idle timeout 400 ms)")
+		halfPool := fs.Int("halfpool", 0, "so many times a node loses one of its pooled connections and is slow to accept the replacement")
 		override := fs.Bool("override", false, "configure an unsupported-write-consistency override matching the workload's writes")
 		_ = fs.Parse(args)
 		if *churn > 0 {
@@ -973,7 +1010,7 @@ func init() {
 				j = len(scs)
 			}
 			if err := runRound(scs[i:j], *nodes, *numConns, *nclients, *workers, *out, st, *dropRate, int64(k), *maxDelay,
-				roundOpts{compression: *compression, restarts: *restarts, addNode: *addNode, lateAddNode: *lateAddNode, evict: *evict, bigEvery: *bigEvery, burstsForwarded: *burstsForwarded, idemGraph: *idemGraph, stallDrops: *stallDrops, slowReaders: *slowReaders, nonReaders: *nonReaders, stallMs: *stallMs, holdMs: *holdMs, override: *override, noDrops: *noDrops, idleClose: *idleClose, preCompression: *preCompression, postCompression: *postCompression, churn: *churn, localBursts: *localBursts}); err != nil {
+				roundOpts{compression: *compression, restarts: *restarts, addNode: *addNode, lateAddNode: *lateAddNode, evict: *evict, bigEvery: *bigEvery, burstsForwarded: *burstsForwarded, idemGraph: *idemGraph, stallDrops: *stallDrops, slowReaders: *slowReaders, nonReaders: *nonReaders, stallMs: *stallMs, holdMs: *holdMs, override: *override, noDrops: *noDrops, idleClose: *idleClose, halfPool: *halfPool, preCompression: *preCompression, postCompression: *postCompression, churn: *churn, localBursts: *localBursts}); err != nil {
 				return err
 			}
 		}
